@@ -32,6 +32,7 @@ func (c08) Batches(tier string, seed uint64) []core.Batch {
 	b = append(b, spread("para", 8, tierN(tier, 5000, 25000))...)
 	b = append(b, spread("cycle", 8, tierN(tier, 1500, 8000))...)
 	b = append(b, spread("encoder", 4, tierN(tier, 1200, 6000))...)
+	b = append(b, spread("corpus", 4, 0)...) // installed DEP-5 copyright files and dpkg database stanzas: read, write, read
 	return b
 }
 
@@ -396,6 +397,25 @@ func (p c08) encoderCase(c *core.C, items []encS) {
 func (p c08) RunBatch(t *core.T, b core.Batch) {
 	r := t.Rand(b.Name, fmt.Sprint(b.Arg))
 	switch b.Name {
+	case "corpus":
+		docs := append([]string{}, corpusDep5()...)
+		st := corpusStanzas()
+		for lo := 0; lo < len(st); lo += 60 {
+			docs = append(docs, strings.Join(st[lo:min(lo+60, len(st))], "\n"))
+		}
+		if len(docs) == 0 {
+			t.Cover("corpus:unavailable")
+			return
+		}
+		step := tierN(t.Tier, 4, 1)
+		for i := b.Arg * step; i < len(docs); i += 4 * step {
+			text := docs[i]
+			t.Case("cycle", []byte(text), func(c *core.C) {
+				p.cycleText(c, text, false)
+				c.Cover("corpus:real-documents-cycled")
+				c.Nontrivial()
+			})
+		}
 	case "para":
 		names := []string{"Package", "Description", "X-Foo", "Changes", "Files", "a", "Field.name", "Depends", "Tag"}
 		for i := 0; i < b.N; i++ {
